@@ -121,7 +121,24 @@ def copy_to_obligations(ctx: Ctx, I: Interp) -> None:
                   f"{[_q(eff[i]) for i in early]} before verification", "the target directory is modified before all listed files were verified")
         # the copy loop iterates the same list
         cp = [(i, e) for i, e in loops if i > vi and any(_is_fs_mut(x) for x in eff if x.__dict__.get("in_loop") == e.target)]
-        ctx.check(len(cp) >= 1 and all(e.value is ve.value for _, e in cp), "C12.P4", "the copy loop walks the same file list that was verified", where,
+        def _same_files(v: Any) -> bool:
+            if v is ve.value:
+                return True
+            vrec = [r for r in l.run.loops if r.__dict__.get("loop_key") == ve.target]
+            if vrec and vrec[0].__dict__.get("sample_exited"):
+                return True     # the sampled verification iteration is one that raises: it says nothing about what a completed pass collected
+            # a list filled inside the verification loop, one entry per verified file
+            from ..loopbuilt import contributions
+            if isinstance(v, SList) and v.mode != "map":
+                cs = contributions(l, v)
+                seen_ = 0
+                while not cs and isinstance(v.__dict__.get("entry"), SList) and seen_ < 4:
+                    v = v.__dict__["entry"]      # the list as it was when the later loop started
+                    cs = contributions(l, v)
+                    seen_ += 1
+                return bool(cs) and all(c["how"] == "append" and c["loop"] is not None and c["loop"].__dict__.get("loop_key") == ve.target for c in cs)
+            return False
+        ctx.check(len(cp) >= 1 and all(_same_files(e.value) for _, e in cp), "C12.P4", "the copy loop walks the same file list that was verified", where,
                   f"copy loop over {[short(e.value) for _, e in cp]} / verified {short(ve.value)}", "the files copied are not the files verified")
         # rmtree (guarded by existence of the target) precedes mkdir and copies
         rm = [i for i in muts if _q(eff[i]) == "shutil.rmtree"]
